@@ -149,3 +149,53 @@ func VP_C16_OpsPreserveValidity() {
 	vpAssert("work-area-empty", terr != nil || len(ents) == 0)
 	vpCover("end")
 }
+
+// VP_C16_FaultLeavesWorkAreaEmptyAndStoreValid: a mutating operation in which exactly one
+// file-system call fails (chosen by the engine among all calls of the operation) still leaves
+// the work area empty when it returns, and the store valid. The one call whose failure may
+// leave a temporary file behind is the removal of that file itself.
+// Engine-side fault injection: the assertions are model-level.
+func VP_C16_FaultLeavesWorkAreaEmptyAndStoreValid() {
+	base := vpMkStoreDir()
+	d := vpNewDir(base, 1)
+	pw := vpStr("oldpw", 2)
+	salt := vpBytes("oldsalt", 16)
+	rec := refRecord(1, 1600000000, salt, refDigest(1, pw, salt))
+	if os.WriteFile(filepath.Join(base, "u.user"), []byte(rec), 0600) != nil ||
+		os.WriteFile(filepath.Join(base, "root.admin"), []byte(vpSupportedRecord()), 0600) != nil {
+		panic("setup")
+	}
+	if vpChoose("tmp-exists", 2) == 1 {
+		os.Mkdir(filepath.Join(base, ".tmp"), 0700)
+	}
+	op := vpChoose("op", 4)
+	newpw := vpStr("pw", 2)
+	vpFaultArm()
+	switch op {
+	case 0:
+		d.AddUser("w", newpw, vpChoose("newadmin", 2) == 1)
+	case 1:
+		d.UpdateUser("u", newpw)
+	case 2:
+		d.SetAdmin("u", true)
+	case 3:
+		d.RemoveUser("u")
+	}
+	vpFaultDisarm()
+	call := vpFaultWhere()
+	for i := 0; i < len(call); i++ {
+		if call[i] == '#' {
+			call = call[:i]
+			break
+		}
+	}
+	names := []string{"add", "update", "setadmin", "remove"}
+	ents, terr := os.ReadDir(filepath.Join(base, ".tmp"))
+	vpAssert("model: work-area-empty-after-"+names[op]+" (failing call: "+call+")", vpImp(call != "unlink", terr != nil || len(ents) == 0))
+	vpAssert("model: store-still-valid-after-"+names[op]+" (failing call: "+call+")", d.Check() == nil)
+	_, e1 := os.Stat(filepath.Join(base, "u.user"))
+	_, e2 := os.Stat(filepath.Join(base, "u.admin"))
+	vpAssert("model: never-two-files-for-one-user (failing call: "+call+")", e1 != nil || e2 != nil)
+	vpNote("fault", vpFaultWhere())
+	vpCover("end")
+}
